@@ -64,9 +64,12 @@ def group_table(report, repo, rule):
       if dotted(l) == rec and isinstance(r, ast.Constant) and r.value is None:
         return 'rec' if isinstance(expr.ops[0], ast.IsNot) else ('not', 'rec')
       if ends_with(dotted(r) or '', '_ExecutorReturn.CONTINUE'):
-        if isinstance(expr.ops[0], (ast.NotEq, ast.IsNot)):
-          return 'setup_nonc'
-        return ('not', 'setup_nonc')
+        src = cfgm.Path(steps, None).value_of(l.id) if isinstance(
+            l, ast.Name) else l
+        if isinstance(src, ast.Call) and seq_kind(src) == 'setup':
+          if isinstance(expr.ops[0], (ast.NotEq, ast.IsNot)):
+            return 'setup_nonc'
+          return ('not', 'setup_nonc')
     return None
 
   atoms = ['in_teardown', 'rec', 'fail_pre', 'fail_post', 'has_setup',
@@ -283,16 +286,19 @@ def r5_thread_proc(report, repo):
               'test diagnosers are in the try, _execute_test_teardown in its '
               'finally; plug tear-down is the first step of the teardown')
   f = repo.func(TE, 'TestExecutor._thread_proc')
+  tds = core.calls_in(f.node, name='self._execute_test_teardown')
+  report.expect_instances(rule, len(tds), 1, '_execute_test_teardown calls')
   tries = [n for n in walk_no_nested(f.node) if isinstance(n, ast.Try) and
-           n.finalbody]
-  report.expect_instances(rule, len(tries), 1, 'try/finally blocks')
+           n.finalbody and any(core.in_block(c, n, 'finalbody') for c in tds)]
+  if not tries:
+    report.violation(rule, f.qualname, 'teardown-in-finally', tds[0],
+                     '_execute_test_teardown is not in a finally block: an '
+                     'error or early return skips group-independent teardown '
+                     '(plug tear-down) and finalisation')
+    return
   t = tries[0]
-  in_fin = [c for s in t.finalbody for c in core.calls_in(s, name=
-                                                          'self._execute_test_teardown')]
-  report.check(len(in_fin) == 1, rule, f.qualname, 'teardown-in-finally', t,
-               '_execute_test_teardown is called in the finally block',
-               '_execute_test_teardown is not in the finally block: an error '
-               'or early return skips plug tear-down and finalisation')
+  in_fin = [c for c in tds if core.in_block(c, t, 'finalbody')]
+  report.ok(rule, t, '_execute_test_teardown is called in the finally block')
   for nm in ('self._execute_node', 'self._execute_test_diagnosers',
              'self._initialize_plugs', 'self._execute_test_start'):
     cs = core.calls_in(f.node, name=nm)
